@@ -28,6 +28,29 @@ pub struct StateV01 {
     predicate: PredicateWrapper,
 }
 
+impl StateV01 {
+    /// The declared `predicateType` must name the format of the predicate
+    /// that the statement actually contains.
+    pub(super) fn check_predicate_type(&self) -> Result<()> {
+        let actual = match &self.predicate {
+            PredicateWrapper::LinkV0_2(_) => PredicateVer::LinkV0_2,
+            PredicateWrapper::SLSAProvenanceV0_1(_) => {
+                PredicateVer::SLSAProvenanceV0_1
+            }
+            PredicateWrapper::SLSAProvenanceV0_2(_) => {
+                PredicateVer::SLSAProvenanceV0_2
+            }
+        };
+        if actual != self.predicate_type {
+            return Err(Error::AttestationFormatDismatch(
+                String::from(self.predicate_type),
+                String::from(actual),
+            ));
+        }
+        Ok(())
+    }
+}
+
 impl StateLayout for StateV01 {
     fn version(&self) -> StatementVer {
         StatementVer::V0_1
